@@ -1,8 +1,128 @@
 import Driver.Codec
+import LopdfModel.Model.Filters
 namespace Lopdf.Driver.C09
 open Lopdf Lopdf.Codec
 
-/-- protocol operations of property C09: `none` = not an operation of this property. -/
-def handle (op : String) (args : List String) : Option String := none
+def showOut : Outcome Bytes → String
+  | .ok b => "ok " ++ hexTok b
+  | .err _ => "err"
+  | .panic _ => "panic"
+
+def showStrm (s : Strm) : String := showObj (.stream s.dict s.content)
+
+/-- marker returned when a request did not ship the external result the model needs -/
+def extMiss : Bytes := strBytes "EXT-MISS"
+
+/-- `<n> (<kind> <in> <out>)*` with kind z (inflate) | l0 | l1 (lzw, EarlyChange 0/1) | d (deflate) -/
+partial def parseExt : Nat → List String → Option (List (String × Bytes × Bytes) × List String)
+  | 0, ts => some ([], ts)
+  | k+1, ts =>
+    match ts with
+    | kind :: a :: b :: ts1 => do
+      let i ← bytesOfHex a
+      let o ← bytesOfHex b
+      let (es, ts2) ← parseExt k ts1
+      pure ((kind, i, o) :: es, ts2)
+    | _ => none
+
+def lookupExt (tab : List (String × Bytes × Bytes)) (kind : String) (i : Bytes) : Bytes :=
+  match tab.find? (fun (k, a, _) => k == kind && a == i) with
+  | some (_, _, o) => o
+  | none => extMiss
+
+def mkExt (tab : List (String × Bytes × Bytes)) : Ext :=
+  { inflate := lookupExt tab "z", lzw := fun ec => lookupExt tab (if ec then "l1" else "l0") }
+
+def parseExtTail (ts : List String) : Option (List (String × Bytes × Bytes)) :=
+  match ts with
+  | n :: rest =>
+    match n.toNat?.bind (fun n => parseExt n rest) with
+    | some (tab, []) => some tab
+    | _ => none
+  | [] => none
+
+def withStream (args : List String) (f : Strm → List String → Option String) : String :=
+  match parseObj args with
+  | some (.stream d c, rest) => (f ⟨d, c⟩ rest).getD "bad-op"
+  | _ => "bad-op"
+
+def filterOfNat : Nat → Option PngFilter := PngFilter.ofIdx
+
+def handle (op : String) (args : List String) : Option String :=
+  match op with
+  | "a85" =>
+    some <| match args with
+    | [h] => match bytesOfHex h with
+      | some b => showOut (a85Decode b)
+      | none => "bad-op"
+    | _ => "bad-op"
+  | "pngrow" =>
+    some <| match args with
+    | [t, bpp, prev, cur] =>
+      match t.toNat?.bind filterOfNat, bpp.toNat?, bytesOfHex prev, bytesOfHex cur with
+      | some t, some bpp, some prev, some cur => showOut (decodeRowO t bpp prev cur)
+      | _, _, _, _ => "bad-op"
+    | _ => "bad-op"
+  | "pngframe" =>
+    some <| match args with
+    | [bpp, ppr, content] =>
+      match bpp.toNat?, ppr.toNat?, bytesOfHex content with
+      | some bpp, some ppr, some content =>
+        match decodeFrame content bpp ppr with
+        | .ok b => "ok " ++ hexTok b
+        | .err e => "err " ++ (if e = "invalid PNG filter type" then "invalid" else if e = "failed to fill whole buffer" then "eof" else "other")
+        | .panic _ => "panic"
+      | _, _, _ => "bad-op"
+    | _ => "bad-op"
+  | "filters" =>
+    some <| withStream args fun s rest =>
+      if rest ≠ [] then none else
+      some <| match streamFilters s.dict with
+      | none => "err"
+      | some fs => "ok " ++ toString fs.length ++ String.join (fs.map fun f => " " ++ hexTok f) ++ (if isCompressed s then " c" else " u")
+  | "decode" =>
+    some <| withStream args fun s rest => (parseExtTail rest).map fun tab => showOut (decompressedContent (mkExt tab) s)
+  | "plain" =>
+    some <| withStream args fun s rest => (parseExtTail rest).map fun tab => showOut (getPlainContent (mkExt tab) s)
+  | "compress" =>
+    some <| withStream args fun s rest => (parseExtTail rest).map fun tab => "ok " ++ showStrm (compress (lookupExt tab "d") s)
+  | "decompress" =>
+    some <| withStream args fun s rest => (parseExtTail rest).map fun tab =>
+      match decompress (mkExt tab) s with
+      | .ok s' => "ok " ++ showStrm s'
+      | .err _ => "err"
+      | .panic _ => "panic"
+  | "setcontent" =>
+    some <| withStream args fun s rest =>
+      match rest with
+      | [h] => (bytesOfHex h).map fun c => "ok " ++ showStrm (setContent s c)
+      | _ => none
+  | "setplain" =>
+    some <| withStream args fun s rest =>
+      match rest with
+      | [h] => (bytesOfHex h).map fun c => "ok " ++ showStrm (setPlainContent s c)
+      | _ => none
+  | "doccompress" =>
+    -- doccompress <k> (<num> <gen> <obj>)* <m> (<num> <gen>)*   [ids with allows_compression = false]   <ext>
+    some <| (do
+      let k ← args.head?.bind String.toNat?
+      let (os, rest) ← parseObjects k (args.drop 1)
+      let m ← rest.head?.bind String.toNat?
+      let idToks := (rest.drop 1).take (2 * m)
+      if idToks.length ≠ 2 * m then none
+      let nums ← idToks.mapM String.toNat?
+      let tab ← parseExtTail ((rest.drop 1).drop (2 * m))
+      let rec pairs : List Nat → List ObjId
+        | a :: b :: r => (a, b) :: pairs r
+        | _ => []
+      let deny := pairs nums
+      pure ("ok " ++ showObjects (docCompress (lookupExt tab "d") (fun id => !deny.contains id) os))).getD "bad-op"
+  | "docdecompress" =>
+    some <| (do
+      let k ← args.head?.bind String.toNat?
+      let (os, rest) ← parseObjects k (args.drop 1)
+      let tab ← parseExtTail rest
+      pure ("ok " ++ showObjects (docDecompress (mkExt tab) os))).getD "bad-op"
+  | _ => none
 
 end Lopdf.Driver.C09
